@@ -65,7 +65,10 @@ T2o == TS(Lim("OPEN", 1), Lim("OPEN", 5), "B", 3)
 T3 == TS(Lim("none", 7), Absent, "C", NONE)
 T4 == TS(Lim("CLOSED", 8), Lim("CLOSED", 9), "D", 9)
 T4p == TS(Lim("CLOSED", 8), Lim("CLOSED", 8), "D", 8)
-TextLists == {<<T1, T2>>, <<T1, T2, T3>>, <<T1, T3>>, <<T2o, T4>>, <<T1, T3, T4p>>, <<T3>>}
+\* half-unbounded ranges: the INFINITE limit carries no value
+T5 == TS(Lim("CLOSED", 11), Lim("INFINITE", 0), "E", 12)
+T6 == TS(Lim("INFINITE", 0), Lim("OPEN", 3), "F", 2)
+TextLists == {<<T1, T5>>, <<T6, T4>>, <<T1, T2>>, <<T1, T2, T3>>, <<T1, T3>>, <<T2o, T4>>, <<T1, T3, T4p>>, <<T3>>}
 TextFam == {[CM("TEXTTABLE", it, "text", sc) EXCEPT !.dflt = d, !.dfltinv = di] :
                it \in {"int", "uint"}, sc \in TextLists, d \in {"", "ZZ"}, di \in {NONE, 13}}
 
